@@ -5,6 +5,24 @@ PROP = "C18"
 THEOREMS = [tuple(x) for x in json.load(open(os.path.join(VERIF, "lib", "pins", PROP + ".json")))]
 
 
+def probe_f14(run, har):
+    """a command-line name that occurs nowhere in the manifest but is remembered by the build log"""
+    m1 = "rule r\n  command = cmd $out\nbuild old: r src\nbuild keep: r src\n"
+    m2 = "rule r\n  command = cmd $out\nbuild keep: r src\n"
+    steps = ["file %s %s" % (hx("build.ninja"), hx(m1)), "file %s %s" % (hx("src"), hx("v")), inv_cmd(1, None, False, [], "-"),
+             "file %s %s" % (hx("build.ninja"), hx(m2)), inv_cmd(1, None, False, ["old"], "-")]
+    rep = run_histories(har, ["\n".join(steps)])[0]
+    where = {"scenario": "\n".join(steps)}
+    if isinstance(rep, str) or len(rep) < 2:
+        run.report_failure(None, "probe: harness died", where)
+        return
+    r = rep[1].result
+    if r.startswith("err:") and b"unknown path requested" in unhexs(r[4:]):
+        return
+    run.report_failure("target-known-only-from-log" if r == "ok:0" else None,
+                       "target `old` occurs nowhere in the manifest (only in .n2_db) but is accepted: %s" % r[:60], where)
+
+
 def main(tier, seed, replay=None):
     return sched_check(PROP, THEOREMS, tier, seed, [monitor_c18], extra_modules=["Model.All", "Proofs.SchedSpec", "Proofs.SchedInv", "Proofs.SchedLive", "Proofs.SchedRunThms"],
-                       replay=replay)
+                       replay=replay, probes=probe_f14)
